@@ -16,5 +16,6 @@ mod driver_tokio;
 mod driver_threaded;
 mod refdec;
 mod refenc;
+mod extremes;
 
 pub(crate) fn tier_thorough() -> bool { std::env::var("VERIF_TIER").map(|v| v == "thorough").unwrap_or(false) }
